@@ -166,6 +166,11 @@ package env
 //@ requires [C13] unlocked: nolocks()
 //@ ensures fresh: result == nil || fresh(base(result))
 //@ loop 0 invariant fresh(base(symbols)) && heldmap() == store(old(heldmap()), lockaddr(e), 1)
+// C12 (symbol listing): the list holds every name the scope binds, each exactly once, and nothing else
+//@ ensures [C12] sound: forall j int :: 0 <= j && j < len(result) ==> has(e.values, result[j])
+//@ ensures [C12] complete: forall k string :: has(e.values, k) ==> (exists j int :: 0 <= j && j < len(result) && result[j] == k)
+//@ ensures [C12] once: forall i int, j int :: 0 <= i && i < j && j < len(result) ==> result[i] != result[j]
+//@ loop 0 invariant [C12] listed: (forall j int :: 0 <= j && j < len(symbols) ==> has(e.values, symbols[j]) && visited(0, symbols[j])) && (forall k string :: visited(0, k) ==> (exists j int :: 0 <= j && j < len(symbols) && symbols[j] == k)) && (forall i int, j int :: 0 <= i && i < j && j < len(symbols) ==> symbols[i] != symbols[j])
 
 //@ func (*Env).Delete
 //@ props C12
@@ -250,6 +255,10 @@ package env
 //@ requires [C13] unlocked: nolocks()
 //@ ensures fresh: result == nil || fresh(base(result))
 //@ loop 0 invariant fresh(base(symbols)) && heldmap() == store(old(heldmap()), lockaddr(e), 1)
+//@ ensures [C12] sound: forall j int :: 0 <= j && j < len(result) ==> has(e.types, result[j])
+//@ ensures [C12] complete: forall k string :: has(e.types, k) ==> (exists j int :: 0 <= j && j < len(result) && result[j] == k)
+//@ ensures [C12] once: forall i int, j int :: 0 <= i && i < j && j < len(result) ==> result[i] != result[j]
+//@ loop 0 invariant [C12] listed: (forall j int :: 0 <= j && j < len(symbols) ==> has(e.types, symbols[j]) && visited(0, symbols[j])) && (forall k string :: visited(0, k) ==> (exists j int :: 0 <= j && j < len(symbols) && symbols[j] == k)) && (forall i int, j int :: 0 <= i && i < j && j < len(symbols) ==> symbols[i] != symbols[j])
 
 // ---------------------------------------------------------------------------
 // whole-scope operations
